@@ -18,7 +18,10 @@ let rec value toks = match toks with
   | t :: r -> let k = t.[0] and a = String.sub t 1 (String.length t - 1) in
     (match k with
      | 'n' -> (JNull, r) | 't' -> (JBool true, r) | 'f' -> (JBool false, r)
-     | 'i' | 'I' | 'd' -> (JNum (z_of_int (int_of_string a)), r)
+     | 'i' | 'I' | 'd' | 'u' | 'U' | 'F' ->
+       (* the numeric QVariant type is part of the input: the model converts the integer into that type (num_value) *)
+       let ty = (match k with 'I' -> TInt | 'u' -> TUInt | 'i' -> TLongLong | 'U' -> TULongLong | 'd' -> TDouble | _ -> TFloat) in
+       (num_value ty (z_of_int (int_of_string a)), r)
      | 's' -> (JStr (unhex a), r)
      | 'a' -> let n = int_of_string a in
               let rec go n r acc = if n = 0 then (List.rev acc, r) else let (v, r') = value r in go (n-1) r' (v :: acc) in
